@@ -11,6 +11,7 @@ DET = V.RULES + ["Copeland"]
 RAND = ["RandomizedPlurality", "RandomizedBorda", "RandomizedVeto", "RandomizedKApproval", "RandomizedHarmonic"]
 
 class C13(Prop):
+    translators = ['scoring']   # weights, winners, break_tie regenerated from deterministic_scoring.py / utils.py on every run
     pid = "C13"
     sources = ["socialchoicekit/utils.py", "socialchoicekit/deterministic_scoring.py", "socialchoicekit/deterministic_tournament.py",
                "socialchoicekit/randomized_scoring.py", "socialchoicekit/deterministic_multiround.py", "socialchoicekit/deterministic_matching.py"]
